@@ -53,6 +53,47 @@ impl Resp {
     }
 }
 
+fn sse_line(v: Value) -> String {
+    format!("data: {}\n\n", v)
+}
+
+fn dynamic_resp(idx: usize, body: &[u8]) -> Resp {
+    let raw = String::from_utf8_lossy(body).to_string();
+    let followup = raw.contains("function_call_output");
+    let mut out = sse_line(json!({"type": "response.created", "response": {"id": format!("resp_{idx}")}}));
+    out.push_str(&sse_line(json!({"type": "response.output_text.delta", "delta": format!("t{idx}")})));
+    if !followup {
+        if let Some(start) = raw.rfind("@@CALLS ") {
+            let rest = &raw[start + 8..];
+            if let Some(end) = rest.find("@@END") {
+                for (k, spec) in rest[..end].split(',').enumerate() {
+                    let (tool, arg) = spec.trim().split_once(':').unwrap_or((spec.trim(), ""));
+                    let args = match tool {
+                        "write" => json!({"path": arg, "content": format!("w{idx}.{k};"), "append": true}),
+                        "bash" => json!({"command": format!("echo b{idx}.{k} >> {arg}")}),
+                        "ls" | "read" => json!({"path": arg}),
+                        "grep" => json!({"pattern": arg, "path": "."}),
+                        _ => json!({}),
+                    };
+                    let item = json!({"type": "function_call", "id": format!("item_{idx}_{k}"), "call_id": format!("call_{idx}_{k}"),
+                                      "name": tool, "arguments": args.to_string(), "status": "completed"});
+                    out.push_str(&sse_line(json!({"type": "response.output_item.done", "output_index": k, "item": item})));
+                }
+            }
+        }
+    }
+    out.push_str("data: [DONE]\n\n");
+    Resp {
+        status: 200,
+        content_type: "text/event-stream".into(),
+        chunks: vec![out.into_bytes()],
+        delay_ms: 0,
+        drop_after: None,
+        echo_request: false,
+        extra_headers: Vec::new(),
+    }
+}
+
 pub struct Provider {
     pub url: String,
     pub requests: Arc<Mutex<Vec<Value>>>,
@@ -61,6 +102,17 @@ pub struct Provider {
 
 impl Provider {
     pub async fn start(script: Vec<Resp>) -> Self {
+        Self::start_mode(script, false).await
+    }
+
+    /// Dynamic mode: the response is computed from the request. A request that carries
+    /// function_call_output items gets a final text; otherwise the last `@@CALLS a:b,c:d@@END`
+    /// directive in the request body names the function calls to return (tool:argument).
+    pub async fn start_dynamic() -> Self {
+        Self::start_mode(Vec::new(), true).await
+    }
+
+    async fn start_mode(script: Vec<Resp>, dynamic: bool) -> Self {
         let listener = TcpListener::bind("127.0.0.1:0").await.expect("bind provider");
         let addr = listener.local_addr().expect("addr");
         let requests: Arc<Mutex<Vec<Value>>> = Arc::new(Mutex::new(Vec::new()));
@@ -116,7 +168,8 @@ impl Provider {
                         r.len() - 1
                     };
                     // ---- scripted response
-                    let resp = script.get(idx).cloned().unwrap_or_else(|| Resp {
+                    let resp = if dynamic { Some(dynamic_resp(idx, &body)) } else { script.get(idx).cloned() };
+                    let resp = resp.unwrap_or_else(|| Resp {
                         status: 200,
                         content_type: "text/event-stream".into(),
                         chunks: vec![b"data: [DONE]\n\n".to_vec()],
